@@ -579,17 +579,28 @@ func (env *SpecEnv) call(n *ast.CallExpr) *Val {
 			cells := x.lastCalls[fid.Name]
 			if k >= len(cells) {
 				// not executed yet on any path: if the function under
-				// verification calls it somewhere, the value is simply unknown here
-				if t := x.lastCallType(fid.Name, k); t != nil {
-					return x.freshVal("last_"+fid.Name+"_none", t)
+				// verification calls it somewhere, the value is simply unknown
+				// here - but it is ONE unknown: the cell is created now, so that a
+				// loop invariant and a gate that both mention last(f) before the
+				// first call speak about the same value
+				for i := len(cells); i <= k; i++ {
+					t := x.lastCallType(fid.Name, i)
+					if t == nil {
+						sfail("last(%s): no call to %s with result %d was executed", fid.Name, fid.Name, k)
+					}
+					cells = append(cells, x.newCell("last_"+fid.Name, t, token.NoPos))
 				}
-				sfail("last(%s): no call to %s with result %d was executed", fid.Name, fid.Name, k)
+				if x.lastCalls == nil {
+					x.lastCalls = map[string][]*Cell{}
+				}
+				x.lastCalls[fid.Name] = cells
 			}
 			v, ok := env.st.cells[cells[k]]
 			if !ok {
 				// no call on this path: the value is unknown (nothing can be
 				// proved from it), which is what a path without the call deserves
 				v = x.freshVal("last_"+fid.Name+"_none", cells[k].ty)
+				env.st.cells[cells[k]] = v
 			}
 			return v
 		case "has":
